@@ -42,14 +42,11 @@ func c11Escrow(scenario int) {
 	for i := 0; i < 4; i++ {
 		sk.vals = append(sk.vals, stakingtypes.Validator{OperatorAddress: vaddrs[i].String(), Status: stakingtypes.Bonded, Tokens: math.NewInt(50000000000), DelegatorShares: math.LegacyNewDec(50000000000)})
 	}
-	n := 2
-	if scenario == 0 || ndTier() >= 1 {
-		n = 2 + ndLen("norigins", 1)
-	}
+	n := 2 + ndLen("norigins", 1)
 	// report power from a grid (the divisor of the apportioning); category fixes the percentage
-	powers := []int64{7}
+	powers := []int64{7, 1000}
 	if ndTier() >= 1 {
-		powers = []int64{7, 1, 1000}
+		powers = []int64{7, 1000, 1, 333}
 	}
 	power := powers[ndPick("power", len(powers))]
 	total := math.NewInt(power * 1000000)
